@@ -262,6 +262,8 @@ class Sem:
         raise ValueError(k)
 
     def _take(self, buf, pos, n, mask):
+        if n == 0:
+            return b""  # nothing is needed (a zero-length member behind padding that lies beyond the input)
         if pos + n > len(buf):
             raise Short(max(pos, len(buf)))
         if mask is not None:
